@@ -177,7 +177,10 @@ def hardware(rng, decl, einsums, mapping, buffers_p=0.5, merger_p=0.3):
     if has_seq:
         y += "    - name: Seq\n      class: Sequencer\n      attributes:\n        num_ranks: 8\n"
     y += "    subtree:\n    - name: %s\n      local:\n" % ("PE" if n_pe == 1 else "PE[0..%d]" % (n_pe - 1))
-    y += "      - name: Buf\n        class: Buffet\n        attributes:\n          width: 64\n          depth: 128\n"
+    # numeric attributes are sometimes written as floats with many significant digits (they are printed into the dump)
+    depth = rng.choice(["128", "128", "128", "327681.0", "1048577.5", "12345678.0"])
+    width = rng.choice(["64", "64", "64", "32.0"])
+    y += "      - name: Buf\n        class: Buffet\n        attributes:\n          width: %s\n          depth: %s\n" % (width, depth)
     y += "      - name: IsA\n        class: Intersector\n        attributes:\n          type: %s\n" % t_a
     y += "      - name: IsB\n        class: Intersector\n        attributes:\n          type: %s\n" % t_b
     y += "      - name: Mrg\n        class: Merger\n        attributes:\n          inputs: 64\n          comparator_radix: 64\n          outputs: 1\n          order: fifo\n          reduce: False\n"
@@ -291,9 +294,14 @@ def hardware(rng, decl, einsums, mapping, buffers_p=0.5, merger_p=0.3):
             else:
                 roots = stored
             formats[o] = {fname: roots}
-        b += "  - component: Mul\n    bindings:\n    - op: mul\n"
-        if rng.random() < 0.7:
-            b += "  - component: Add\n    bindings:\n    - op: add\n"
+        if rng.random() < 0.08:
+            # one functional unit bound to two operations of the Einsum (the unchanged compiler rejects this with an
+            # assertion; a compiler that accepts it must still print what it builds)
+            b += "  - component: Mul\n    bindings:\n    - op: mul\n    - op: add\n"
+        else:
+            b += "  - component: Mul\n    bindings:\n    - op: mul\n"
+            if rng.random() < 0.7:
+                b += "  - component: Add\n    bindings:\n    - op: add\n"
     f = "format:\n" if formats else "format: {}\n"
     for t, fs in formats.items():
         f += "  %s:\n" % t
